@@ -48,7 +48,9 @@ static World* makeWorld() {
   w->smooth = Manifold::Tetrahedron().SmoothOut();
   (void)w->smooth.NumTri();
   w->H2 = w->leafT;  // a second handle on the same lazily transformed leaf node
-  w->CS = CrossSection::Square({1, 2}).Translate({0.5, 0}).Rotate(30) - CrossSection::Circle(0.4, 6);
+  // a CrossSection with a PENDING transform (a Boolean result is materialised eagerly; the transforms applied after
+  // it are not): the first const query rewrites paths_ and transform_ together
+  w->CS = (CrossSection::Square({1, 2}) - CrossSection::Circle(0.4, 6)).Translate({0.5, 0}).Rotate(30);
   return w;
 }
 
